@@ -71,6 +71,99 @@ def split_constants(ctx, prog):
     return n
 
 
+def _pts(name, rng, thorough):
+    F = Fraction
+    base = [F(2) ** k for k in (-30, -20, -10, -5, -3, -2, -1, 0, 1, 2, 3, 5, 10, 17)] + [F(1, 3), F(3, 4), F(5, 4), F(7, 3), F(10), F(100), F(2469, 2), F(100000), F(300000)]
+    if thorough:
+        base += [F(2) ** k for k in range(-28, 18, 3)] + [F(k, 7) for k in range(1, 40, 3)] + [F(12345), F(99999, 8), F(1, 1000), F(22, 7), F(355, 113)]
+    if name in ('sin', 'cos', 'tan'):
+        import mpmath
+        base += [spec_math._frac(mpmath.mpf(mpmath.pi) * k / 4) for k in (1, 2, 3, 4, 6, 8, 16, 100)] + [F(3), F(6), F(44, 7), F(710, 113)]
+    if name in ('asin', 'acos'):
+        base = [F(0), F(1)] + [1 - F(2) ** -k for k in (1, 5, 10, 20, 26)] + [F(2) ** -k for k in (1, 2, 5, 10, 20)] + [F(1, 3), F(3, 4), F(9, 10)]
+    if name in ('exp', 'exp2'):
+        base = [F(0)] + [F(v) for v in (1, 2, 10, 50, 100, 103)] + [F(2) ** -k for k in (1, 3, 10, 20)] + [F(1, 3), F(7, 2), F(69, 100)]
+    if name in ('sinh', 'cosh'):
+        base = [F(0)] + [F(v) for v in (1, 2, 10, 50, 87)] + [F(2) ** -k for k in (1, 3, 10, 20)] + [F(1, 3), F(7, 2)]
+    if name in ('ln', 'log2'):
+        base = [F(2) ** k for k in (-100, -30, -10, -1, 0, 1, 3, 10, 50, 110)] + [1 + F(2) ** -k for k in (1, 10, 20)] + [1 - F(2) ** -k for k in (2, 10, 20)] + [F(3), F(10), F(1, 10), F(2718281828, 10 ** 9), F(1000000)]
+    if name == 'cbrt':
+        base += [F(8), F(27), F(1, 8), F(1000000), F(1, 1000000), F(2)]
+    out = []
+    for v in base:
+        for sg in ((1, -1) if name not in ('ln', 'log2') else (1,)):
+            x = v * sg
+            if rng is not None and abs(x) >= rng:
+                continue
+            out.append(x)
+    return out
+
+
+BIN_PTS = {
+    'atan2': [(1, 1), (1, -1), (-1, -1), (-1, 1), (1, 2), (3, -4), (0, 1), (1, 1000), (1000, 1), (-5, 12), (1, 3), (7, 2)],
+    'hypot': [(3, 4), (5, 12), (1, 1), (1000, 1), (1, 1000), (8, 15), (-3, 4), (7, 24), (1, 3), (100000, 100000)],
+    'powf': [(2, 10), (2, -3), (10, 3), (4, 1), (9, 2), (3, 3), (5, 2), (7, 1), (2, 20), (10, -2)],
+}
+BIN_FRAC = {'powf': [(Fraction(2), Fraction(1, 2)), (Fraction(3, 2), Fraction(5, 2)), (Fraction(1, 2), Fraction(20)), (Fraction(9), Fraction(1, 2)), (Fraction(10), Fraction(-7, 2))]}
+
+
+def ulp_probe_task(ctx, prog, name, bound, pts, binary=False):
+    """constant propagation of the function at the given points; the result must lie within `bound` encodings of the correctly rounded value"""
+    import collections
+    import mpmath
+    import dyntraits
+    from interp import Interp
+    from aval import AAgg, AInt
+    P = P32.posit
+    st = collections.Counter()
+    path = prog.inherent(P32.tykey, name)
+    if not path:
+        return st
+    I = Interp(prog, max_steps=5000000)
+    I.call_hook = dyntraits.DynHook(prog, P32)
+
+    def arg(u):
+        sv = u - (1 << 32) if u >> 31 else u
+        return AAgg(P32.tykey, [AInt.const(32, True, sv)])
+    for pt in pts:
+        us = [P.encode(Fraction(x)) if x != 0 else 0 for x in (pt if binary else (pt,))]
+        vals = [P.decode(u) for u in us]
+        if not binary:
+            want = spec_math.rounded(P, name, us[0])
+        else:
+            a, b = [spec_math._mpf(v) for v in vals]
+            try:
+                y = {'atan2': lambda: mpmath.atan2(a, b), 'hypot': lambda: mpmath.hypot(a, b), 'powf': lambda: mpmath.power(a, b)}[name]()
+                fy = spec_math._frac(mpmath.mpf(y))
+                lo_, hi_ = P.encode(fy * (1 - spec_math.EPS)), P.encode(fy * (1 + spec_math.EPS))
+                want = lo_ if (lo_ == hi_ and fy != 0) else None
+            except Exception:
+                want = None
+        if want is None:
+            st['oracle_undecided'] += 1
+            continue
+        try:
+            o = I.run(path, [arg(u) for u in us])
+        except Exception as ex:
+            st['unsupported'] += 1
+            continue
+        r = o.value.fields[0] if o.kind == 'return' and isinstance(o.value, AAgg) else None
+        if o.kind in ('panic', 'budget'):
+            st['no_return'] += 1     # totality is C16's business; not reported here
+            continue
+        if r is None or not r.is_const():
+            st['undecided'] += 1
+            continue
+        st['points'] += 1
+        d = abs(P.order_key(r.uval()) - P.order_key(want))
+        st['max_ulp_%s' % name] = max(st['max_ulp_%s' % name], d)
+        if d > bound:
+            f = ctx.finding('ULP', 'P32E2::%s' % name, 'bound', 'P32E2::%s(%s) = %#x is %d encodings away from the correctly rounded %#x (stated bound %d)'
+                            % (name, ', '.join('%#x' % u for u in us), r.uval(), d, want, bound), {'function': path, 'points': []})
+            f.details.setdefault('points', []).append([hex(u) for u in us])
+    return st
+
+
 def run(ctx):
     prog = ctx.prog('default')
     ctx.rules.append('R2 guarded-cell results: NaR input and out-of-domain cells (constant propagation / interval reasoning through the SLEEF-style bodies)')
@@ -94,9 +187,25 @@ def run(ctx):
         st = run_cells(ctx, prog, 'GCR', 'P32E2::%s' % name, path,
                        lambda cell: [posit_arg(P32, cell[0][0], cell[0][1], 0), posit_arg(P32, cell[1][0], cell[1][1], 1)], [cells, cells], bspec(name), 32)
         tot += decided(st)
+    # ULP probes: constant propagation through the whole function (the generic Polynom / Quire calls are resolved by run-time type) at points
+    # chosen from the function's definition (powers of two, simple rationals, multiples of pi/4, domain and range edges); singleton verdicts only
+    import rules_rounding
+    thorough = ctx.tier == 'thorough'
+    tasks = []
+    for name, (bound, rng) in UNARY.items():
+        pts = _pts(name, rng, thorough)
+        if not thorough:
+            pts = pts[::2] if len(pts) > 36 else pts
+        tasks.append((ulp_probe_task, (name, bound, pts), {}))
+    for name, bound in BINARY.items():
+        pts = [(Fraction(a), Fraction(b)) for a, b in BIN_PTS[name]] + BIN_FRAC.get(name, [])
+        tasks.append((ulp_probe_task, (name, bound, pts), dict(binary=True)))
+    st = rules_rounding.run_parallel(ctx, prog, tasks, prefix='ulp_')
+    ctx.rules.append('ULP probes: constant propagation of each function at definition-derived points vs the 400-bit oracle (bound stated by the crate)')
+    ctx.trusted += ['mpmath 1.3 at 400 bits with a two-sided margin test (a point whose rounding is not certain is skipped)', 'run-time resolution of the generic Polynom / Quire trait calls by argument type (sa/dyntraits.py)']
     nsplit = split_constants(ctx, prog)
     ctx.count('split_constant_parts_checked', nsplit)
     ctx.require('C15 decided cells', tot, 100)
-    ctx.undecided['error_bounds'] = 'the ULP bounds, argument-reduction accuracy and behaviour at reduction boundaries are NOT decided (no claim)'
+    ctx.undecided['error_bounds'] = 'the ULP bounds are checked at the probe points only (singleton verdicts); argument-reduction accuracy and the bounds elsewhere are NOT decided'
     return LEVEL, ('For the 16 P32E2 elementary functions: NaR input gives NaR and arguments outside the real domain (ln/log2 of x <= 0, asin/acos of |x| > 1) give NaR, '
                    'decided on the corresponding cells by interpreting the whole SLEEF-style body. The stated ULP error bounds are not decided by this technique.')
